@@ -315,7 +315,13 @@ def pb(body):
 def phead(r):
     opts = r.get('opts', ())
     parts = []
-    for f, v in r['head']:
+    head = list(r['head'])
+    if 'colnames' not in opts:
+        # positional spelling: the arguments are read by position, so a head whose
+        # (named) entries were listed in a drawn order is printed in index order
+        pos = sorted([fv for fv in head if isinstance(fv[0], int)], key=lambda fv: fv[0])
+        head = pos + [fv for fv in head if not isinstance(fv[0], int)]
+    for f, v in head:
         if isinstance(v, tuple) and v and v[0] == 'AGG':
             assert isinstance(f, str)
             parts.append('%s? %s= %s' % (f, v[1], pe(v[2])))
